@@ -155,7 +155,7 @@ def run(ctx):
                'interpolate_variable clamps to 0.999*a_max by design: anything between the interpolants at 0.999*a_max and a_max is accepted',
                'rtol 1e-11 (1e-9 for the composite SED)')
     ctx.require_events('ConvolvedFluxes.interpolate:post', 'SED.interpolate:post', 'SED.interpolate_variable:post', 'variable:node-checked',
-                       'refused:convolved', 'refused:sed', 'refused:variable', 'convolved:same-table-again', 'convolved:table-changed-between-calls', 'convolved:table-without-errors', 'sed:apertures-replaced-between-calls')
+                       'refused:convolved', 'refused:sed', 'refused:variable', 'convolved:same-table-again', 'convolved:table-changed-between-calls', 'convolved:table-without-errors', 'sed:apertures-replaced-between-calls', 'sed:fluxes-replaced-between-calls', 'convolved:apertures-replaced-between-calls')
     ctx.require_regimes('single-aperture', 'convolved:no-apertures', 'unit:pc', 'unit:cm', 'sed-apertures:cm', 'above-table', 'on-knot')
     n_it = 250 if ctx.quick else 10000
     for it in range(n_it):
@@ -219,6 +219,14 @@ def run(ctx):
                 if cf.error is not None:
                     cf.error = fl2 * rng.uniform(0.01, 0.3, fl2.shape) * u.mJy
                 cf.interpolate(rq)
+                if n_ap >= 2 and not no_ap:
+                    # ... the aperture table replaced (same number of radii; other values, another unit)
+                    tab3 = tab * float(rng.uniform(1.3, 2.5))
+                    cf.apertures = (tab3 * u.au).to(u.Unit(str(rng.choice(['au', 'pc', 'cm']))))
+                    t3 = np.asarray(cf.apertures.to(u.au).value, float)
+                    cf.interpolate((requests(rng, t3, 3) * (1 + 1e-9) * u.au).to(u.Unit(runit)))
+                    ctx.event('convolved:apertures-replaced-between-calls')
+                    cf.apertures = tq
                 new_order = np.array(rng.permutation(list(cf.model_names)))
                 if cf.error is not None:          # (re-ordering a table without errors is not part of this property)
                     cf.sort_to_match(new_order)
@@ -276,6 +284,12 @@ def run(ctx):
                 s.interpolate_variable(wav[:2].copy(), fa2.copy())
                 ctx.event('sed:apertures-replaced-between-calls')
                 s.apertures = sq
+                # ... and the fluxes replaced (apertures untouched)
+                sfl2 = gen.conv_grid(rng, 1, n_w, n_ap=n_ap)[0]
+                s.flux = sfl2 * u.mJy
+                s.error = sfl2 * 0.1 * u.mJy
+                s.interpolate(req.copy())
+                ctx.event('sed:fluxes-replaced-between-calls')
         except Exception as exc:
             ctx.violation('sed:raised:%s' % type(exc).__name__, 'SED.interpolate raised for radii inside/above the table: %r' % (exc,), wit)
         ctx.case(('sed', it, ctx.shard), nontrivial=n_ap >= 2)
